@@ -1848,6 +1848,25 @@ def _callee_params(repo, f, call):
     mod = f.module
     target = None
     if isinstance(fn, ast.Attribute) and isinstance(fn.value, ast.Name) and \
+            fn.value.id in ("str", "bytes") and \
+            fn.value.id not in mod.assigns and (
+                hasattr(str, fn.attr) or hasattr(bytes, fn.attr)):
+        # a str / bytes method called through the class: the receiver comes
+        # first, then the method's own parameters
+        table = {"decode": ["encoding", "errors"],
+                 "encode": ["encoding", "errors"],
+                 "find": ["sub", "start", "end"],
+                 "rfind": ["sub", "start", "end"],
+                 "index": ["sub", "start", "end"],
+                 "split": ["sep", "maxsplit"], "rsplit": ["sep", "maxsplit"],
+                 "replace": ["old", "new", "count"],
+                 "startswith": ["prefix", "start", "end"],
+                 "endswith": ["suffix", "start", "end"],
+                 "strip": ["chars"], "lstrip": ["chars"],
+                 "rstrip": ["chars"], "join": ["iterable"]}
+        return ["self"] + table.get(fn.attr, []), \
+            "%s.%s" % (fn.value.id, fn.attr), False
+    if isinstance(fn, ast.Attribute) and isinstance(fn.value, ast.Name) and \
             fn.value.id in ("self", "cls") and f.cls is not None:
         m = repo.method(f.cls, fn.attr)
         if m is not None:
@@ -1866,7 +1885,7 @@ def _callee_params(repo, f, call):
         return names, g.qualname, a.vararg is not None
     if target[0] == "class":
         ci = target[1]
-        init = repo.method(ci, "__init__")
+        init = repo.method(ci, "__init__") or repo.method(ci, "__new__")
         fields, _k = repo.class_attr(ci, "_fields")
         if fields is not None and isinstance(fields, (ast.Tuple, ast.List)) \
                 and all(isinstance(e, ast.Constant) for e in fields.elts):
@@ -1910,22 +1929,72 @@ def argswap_sites(repo, mods=None):
             for k in c.keywords:
                 if k.arg:
                     given[k.arg] = k.value
+            def label(e):
+                """the name an argument goes by: a plain name, or the last
+                attribute of a dotted one (exc.msg -> msg)"""
+                if isinstance(e, ast.Name):
+                    return e.id
+                if isinstance(e, ast.Attribute):
+                    return e.attr
+                return None
             for i, a in enumerate(c.args):
-                if i >= len(params) or not isinstance(a, ast.Name):
+                if i >= len(params):
                     continue
-                if a.id == params[i]:
+                an = label(a)
+                if an is None:
+                    continue
+                if an == params[i]:
                     n_named += 1
                     continue
-                if a.id in params:
-                    other = given.get(a.id)
-                    if other is None or not (isinstance(other, ast.Name)
-                                             and other.id == a.id):
+                if an == "self" and isinstance(a, ast.Name) and \
+                        params and params[0] == "self" and i > 0:
+                    bad.append((f, c, "the receiver 'self' is passed as "
+                                "parameter '%s' of %s" % (params[i], cq)))
+                    continue
+                if an in params and an != "self":
+                    other = given.get(an)
+                    if other is None or label(other) != an:
                         bad.append((f, c, "'%s' is passed as parameter '%s' "
                                     "of %s, whose parameter '%s' gets %s" % (
-                                        a.id, params[i], cq.split(".")[-1],
-                                        a.id, src(other)[:40]
+                                        src(a)[:30], params[i],
+                                        cq.split(".")[-1], an,
+                                        src(other)[:40]
                                         if other is not None else "nothing")))
     return n_calls, n_named, bad
+
+
+def isinstance_sites(repo, mods=None):
+    """isinstance(X, T): T names types, X does not -- ``isinstance(ast.Name,
+    target)`` raises TypeError for every target"""
+    n = 0
+    bad = []
+    for q, f in sorted(repo.funcs.items()):
+        if mods is not None and f.module.name not in mods:
+            continue
+        for c in ast.walk(f.node):
+            if isinstance(c, ast.Call) and src(c.func) in (
+                    "isinstance", "issubclass") and len(c.args) == 2:
+                n += 1
+
+                def typeish(e):
+                    if isinstance(e, ast.Tuple):
+                        return bool(e.elts) and all(typeish(x)
+                                                    for x in e.elts)
+                    nm = e.attr if isinstance(e, ast.Attribute) else (
+                        e.id if isinstance(e, ast.Name) else None)
+                    if nm is None:
+                        return False
+                    if nm in ("str", "bytes", "int", "float", "bool", "list",
+                              "tuple", "dict", "set", "type", "object"):
+                        return True
+                    r = repo.resolve_attr(f.module, e)
+                    if r and r[0] == "class":
+                        return True
+                    return nm[:1].isupper() and not nm.isupper()
+                if src(c.func) == "isinstance" and typeish(c.args[0]) and \
+                        not typeish(c.args[1]):
+                    bad.append((f, c))
+    return n, bad
 
 
 def argswap_rule(repo, rep, rule=None, mods=None):
@@ -1944,6 +2013,15 @@ def argswap_rule(repo, rep, rule=None, mods=None):
               "and node classes resolved, %d arguments named like their "
               "parameter, none named like a different one" % (
                   n_calls, n_named), construct="argswap")
+    ni, ib = isinstance_sites(repo, mods)
+    for f, c in ib:
+        rep.bad(rule, f.qualname, "isinstance(value, type)",
+                construct="isinstance-order:%s" % src(c)[:40],
+                detail="the first argument names a type, the second does not",
+                where=where(f, c.lineno))
+    rep.check(not ib, rule, "chameleon.*", "%d isinstance / issubclass "
+              "tests have the value first and the type second" % ni,
+              construct="isinstance-order")
 
 
 def int_guard_truth(test, var, value):
